@@ -86,7 +86,7 @@ func VerifC12Reuse(tries, calls, prevMode int) {
 			verifAssert(k.end-k.start == at, "earlier-call-ends-at-its-event")
 		}
 	}
-	verifObserveInt("writes", len(k.conn.log))
+	// (the total number of transmissions is not observed: an earlier call's event may coincide with a retransmission that is due, and either order is legitimate)
 	c.Close()
 	verifReach("end")
 }
